@@ -201,13 +201,15 @@ func saveState(lastMessages map[string]interface{}) {
 		return
 	}
 
-	// Move old config file to backup and new file to standard config name.
+	// Keep the old config file as a backup and move the new file to the standard config name.
+	// The old file is linked (not moved) to the backup name, so the standard name never goes
+	// missing: the final rename replaces it atomically.
 	err = os.Remove(bakname)
 	if err != nil && !os.IsNotExist(err) {
 		log.Println("Could not remove backup file ", bakname, " even though it exists: ", err)
 		return
 	}
-	err = os.Rename(mainname, bakname)
+	err = os.Link(mainname, bakname)
 	if err != nil && !os.IsNotExist(err) {
 		log.Println("Could not save backup file: ", err)
 		return
